@@ -47,6 +47,11 @@ Done == st = 3
 
 \* C17 at design level
 AlgIsSelect == (Done /\ ~CfgKeyNamesOther(in) /\ ~DcfSubSettings(in)) => AlgSelect(T, in) = Select(T, in)
+\* a default config file without the environment: the file as get_defaults leaves it (DcfLoaded) decides; where it loses
+\* nothing the documented choice results
+AlgDcfIsSelect == (Done /\ in.dcf /\ ~DcfOpaque(T, in) /\ ~DcfPrunes(T, in)) => AlgSelectDcf(T, in) = Select(T, in)
+\* a file without sub-command content: both transcriptions coincide
+DcfPlainSame == (Done /\ in.dcf /\ ~DcfSubSettings(in)) => AlgSelectDcf(T, in) = AlgSelect(T, in)
 \* the shape of every result: one section per level, the chosen one; the last level has none
 OneSectionPerLevel == LET r == Select(T, in) IN (Done /\ ~r.err) =>
                          \A j \in 1..Len(r.levels) : r.levels[j].sections = (IF r.levels[j].chosen = None THEN {} ELSE {r.levels[j].chosen})
@@ -59,6 +64,7 @@ InJson == [argv |-> in.argv, aopt |-> SetToSeq(in.aopt), csel |-> [j \in 1..Card
            eopt |-> SetToSeq(in.eopt), strict |-> in.strict, dcf |-> in.dcf, icfg |-> SetToSeq(in.icfg)]
 ResJson(r) == [err |-> r.err, levels |-> [j \in 1..Len(r.levels) |-> [x |-> r.levels[j].x, chosen |-> r.levels[j].chosen, sections |-> SetToSeq(r.levels[j].sections)]]]
 EmitCase == (Emit /\ Done) => PrintT(ToJson([tree |-> Tree, input |-> InJson, ref |-> ResJson(Select(T, in)), alg |-> ResJson(AlgSelect(T, in)), dev |-> CfgKeyNamesOther(in), dcfdev |-> DcfSubSettings(in),
-                                                     algcfg |-> ResJson(AlgSelect(T, [in EXCEPT !.dcf = FALSE]))]))
+                                                     algcfg |-> ResJson(AlgSelect(T, [in EXCEPT !.dcf = FALSE])),
+                                                     algdcf |-> ResJson(AlgSelectDcf(T, in)), dcffirst |-> DcfFirstSectionOnly(T, in), dcfopaque |-> DcfOpaque(T, in)]))
 ASSUME Emit => PrintT(ToJson([treedef |-> Tree, nodes |-> TJson]))
 =============================================================================
